@@ -30,7 +30,9 @@ RULE = (
     "JSON-like data + loader kind (dict, caching dict, namespaced caching dict, choice, caching choice, file system, caching "
     "file system). Both sides get their own environment and loader. Judged: get_template vs get_template_async (name, str, "
     "path, probe render), render vs render_async (output or error class), analyze vs analyze_async (all five maps incl. "
-    "spans). Non-trivial = both renders completed with non-empty output or a Liquid error and the template has >= 1 tag."
+    "spans) and one of the convenience methods variables / variable_paths / variable_segments / global_* / filter_names / tag_names vs its "
+    "_async twin, with and without partials. One case in eight is an extends chain from C18's generator (nested blocks, block.super, "
+    "required blocks, cycles) behind a dict, choice, file-system or caching loader. Non-trivial = both renders completed with non-empty output or a Liquid error and the template has >= 1 tag."
 )
 REQUIRED = [
     ("liquid/template.py", "BoundTemplate.render_async"),
@@ -42,7 +44,11 @@ REQUIRED = [
     ("liquid/loader.py", "BaseLoader.load_async"),
     ("liquid/builtin/loaders/mixins.py", "CachingLoaderMixin.load_async"),
     ("liquid/static_analysis.py", "analyze_async"),
+    ("liquid/extra/tags/extends_tag.py", "ExtendsNode.render_to_output_async"),
+    ("liquid/extra/tags/extends_tag.py", "BlockNode.render_to_output_async"),
+    ("liquid/extra/tags/extends_tag.py", "ExtendsNode.children_async"),
 ]
+MIN_COUNTERS = {"analysis_convenience_pairs": 200, "inherit_render_pairs": 200}
 ASSUMPTIONS = ["time-dependent constructs (now/today) are not generated", "each side owns a fresh loader instance"]
 
 
@@ -174,6 +180,8 @@ def judge(ctx: core.Ctx, case: dict[str, Any]) -> None:
             r_s = drv.render(ts, data)
             r_a = drv.render_async(ta, data)
             ctx.count("render_pairs")
+            if case.get("family") == "inherit":
+                ctx.count("inherit_render_pairs")
             ctx.observe("render_outcomes", r_s.err_class or "ok")
             if r_s.key() != r_a.key():
                 both_nonliquid = (not r_s.ok and not r_s.is_liquid_error) or (not r_a.ok and not r_a.is_liquid_error)
@@ -208,11 +216,48 @@ def judge(ctx: core.Ctx, case: dict[str, Any]) -> None:
                 ctx.evaluations += 1
                 ctx.violation("analysis-outcome-differs", f"analyze -> {a_s.brief() if not a_s.ok else 'ok'} but analyze_async -> {a_a.brief() if not a_a.ok else 'ok'}")
                 return
+            # the convenience analysis API (one pair per case, with and without partials)
+            meth = case.get("analysis_method")
+            if meth:
+                ip = bool(case.get("include_partials", True))
+                c_s = drv.call(getattr(ts, meth), include_partials=ip)
+                c_a = drv.call_async(getattr(ta, meth + "_async"), include_partials=ip)
+                ctx.count("analysis_convenience_pairs")
+                ctx.observe("analysis_methods", meth)
+                same = (c_s.ok == c_a.ok) and ((c_s.ok and _plain(c_s.value) == _plain(c_a.value)) or (not c_s.ok and c_s.err_class == c_a.err_class))
+                if not same:
+                    ctx.evaluations += 1
+                    ctx.violation(
+                        f"analysis-differs:{meth}",
+                        f"{meth}(include_partials={ip}) -> {c_s.value if c_s.ok else c_s.brief()!r} but {meth}_async -> {c_a.value if c_a.ok else c_a.brief()!r}",
+                    )
+                    return
         nontrivial = case.get("ntags", 0) >= 1 and (not r_s.ok or bool(r_s.value))
         ctx.ok((templates, case["data"], kind, cfg), nontrivial=nontrivial)
     finally:
         if tmpdir:
             shutil.rmtree(tmpdir, ignore_errors=True)
+
+
+def _plain(v):
+    """Order-preserving plain form of a convenience analysis result (lists of names, paths or segment lists)."""
+    return [repr(x) for x in v]
+
+
+ANALYSIS_METHODS = ["variables", "variable_paths", "variable_segments", "global_variables", "global_variable_paths", "global_variable_segments", "filter_names", "tag_names"]
+
+
+def gen_inherit_case(rng) -> dict[str, Any]:
+    """An extends chain (C18's generator: nested blocks, block.super, required blocks, loops around blocks, cycles, duplicates)."""
+    from harness.checks import c18
+
+    ch = c18.gen_chain(rng)
+    templates = {name: c18.print_template(t) for name, t in ch["templates"].items()}
+    kind = rng.choice(["dict", "caching_dict", "choice", "caching_choice", "fs", "caching_fs"])
+    env = {"extra": True, "flags": {}, "mode": rng.choice(["strict", "strict", "lax", "warn"]), "autoescape": rng.random() < 0.2,
+           "undefined": rng.choice(["default", "default", "strict"]), "strict_filters": True}
+    return {"templates": templates, "main": ch["leaf"], "data": V.enc(ch["data"]), "loader": kind, "env": env, "load_kwargs": {}, "load_globals": [None, None],
+            "ntags": 2, "analyze": rng.random() < 0.7, "analysis_method": rng.choice(ANALYSIS_METHODS), "include_partials": rng.random() < 0.8, "family": "inherit"}
 
 
 def classify_diff(r_s, r_a) -> str:
@@ -269,7 +314,7 @@ def gen_case(rng, ctx) -> dict[str, Any]:
         env["globals"] = {"n": 7, "g": "env-global"}
     lgs = [rng.choice([None, None, {"g": "G1", "gg": 1}, {"g": "G2"}, {}]) for _ in range(2)]
     return {"templates": templates, "main": main_name, "data": V.enc(data), "loader": kind, "env": env, "load_kwargs": load_kwargs, "load_globals": lgs,
-            "ntags": len(meta.tags), "analyze": rng.random() < 0.7}
+            "ntags": len(meta.tags), "analyze": rng.random() < 0.7, "analysis_method": rng.choice(ANALYSIS_METHODS + [None, None]), "include_partials": rng.random() < 0.8}
 
 
 HAND_CASES = [
@@ -289,5 +334,5 @@ def cases(ctx: core.Ctx):
         yield c
     rng = ctx.rng("cases")
     n = ctx.budget(7000, 600_000)
-    for _ in range(n):
-        yield gen_case(rng, ctx)
+    for i in range(n):
+        yield gen_inherit_case(rng) if i % 8 == 5 else gen_case(rng, ctx)
